@@ -34,6 +34,9 @@ def gen_design(r, cfg):
         for _ in range(r.randint(1, 4)):
             p["ports"].append({"name": ident(r, pn, 0.05), "dir": r.choice(["input", "output", "inout"]),
                                "width": r.choice([1, 1, 1, 2, 4])})
+        # attributes in front of the module inside the `celldefine block (kept on the primitive's definition)
+        p["attrs"] = dict((k_, r.choice([None, "1", '"buffer"'])) for k_ in r.sample(["cell_kind", "dont_touch", "keep"], r.choice([0, 0, 1, 2]))) \
+            if p["decl"] == "celldefine" else {}
         prims.append(p)
     modules = []
     mode = cfg.get("order", r.choice(["bottom_up", "top_down", "shuffled"]))
@@ -303,7 +306,8 @@ def expected(d):
     for p in d["prims"]:
         used = any(i["of"] == p["name"] for m in d["modules"] for i in m["insts"])
         if p["decl"] == "celldefine":
-            prims[p["name"]] = {"declared": True, "ports": [(q["name"], DIRS[q["dir"]], q["width"]) for q in p["ports"]]}
+            prims[p["name"]] = {"declared": True, "ports": [(q["name"], DIRS[q["dir"]], q["width"]) for q in p["ports"]],
+                                "attrs": dict(p.get("attrs") or {})}
         elif used:
             prims[p["name"]] = {"declared": False,
                                 "widths": dict((pn, w) for (pr, pn), w in prim_width.items() if pr == p["name"])}
@@ -461,7 +465,7 @@ class Renderer:
         ps = []
         for q in p["ports"]:
             ps.append("%s %s%s" % (q["dir"], ("[%d:0] " % (q["width"] - 1)) if q["width"] > 1 else "", self.nm(q["name"])))
-        return "`celldefine\nmodule %s(%s);\nendmodule\n`endcelldefine\n" % (self.nm(p["name"]), ", ".join(ps))
+        return "`celldefine\n%smodule %s(%s);\nendmodule\n`endcelldefine\n" % (self.attrs(p.get("attrs")), self.nm(p["name"]), ", ".join(ps))
 
     def render(self, d):
         out = []
